@@ -33,6 +33,9 @@ def scenario(rng, i):
 RULE = ("sealed trees (a quarter of them flat folders), 1-3 generations with one or several format sets, nested histories, -n generations; verify -dh on the "
         "unchanged tree, then one mutation (content, rename, add, remove) at a random depth incl. the root folder and verify -dh again; oracle: recorded "
         "directory hashes vs an independent evaluation on the current tree. Non-trivial: the scenario contains a mutation.")
+# recorded inputs that run first on every run (known finding: root history without directory hashes)
+CORPUS = [{"tree": {"Ab": {"d": {"k.txt": {"f": "6b"}}}}, "steps": [{"op": "create", "root": "Ab", "fmts": ["xxh64"]}, {"op": "create", "fmts": ["md5"], "n": True},
+                                                                  {"op": "add", "path": "Ab/x", "data": "885a"}, {"op": "verifydh"}]}]
 check, replay = make("C09", oracles.oracle_c09, scenario, 70, 2000, RULE,
                      corpus_defects=[defects.d02_c09_flat_root_change, defects.d03_c09_mixed_format_child, defects.d04_c09_no_dirhash_generation],
-                     nontrivial=lambda scn, obs: any(s["op"] in ("set", "rename", "add", "delete") for s in scn["steps"]))
+                     nontrivial=lambda scn, obs: any(s["op"] in ("set", "rename", "add", "delete") for s in scn["steps"]), corpus=CORPUS)
